@@ -11,6 +11,7 @@ import (
 	"errors"
 	"fmt"
 	"io"
+	"net"
 	"net/rpc"
 	"strconv"
 	"strings"
@@ -69,6 +70,7 @@ type impl struct {
 	kmu           sync.Mutex
 	kept          map[uint32]*grpc.ClientConn
 	heldListeners []io.Closer
+	ownLn         map[uint32]net.Listener
 	own           map[uint32]*grpc.Server
 }
 
@@ -175,8 +177,37 @@ func (im *impl) do(op, arg string) (string, error) {
 		im.kmu.Lock()
 		if im.own == nil {
 			im.own = map[uint32]*grpc.Server{}
+			im.ownLn = map[uint32]net.Listener{}
 		}
 		im.own[id] = srv
+		im.ownLn[id] = ln
+		im.kmu.Unlock()
+		go k.Trap(func() { srv.Serve(ln) })
+		return "", nil
+	case "reacceptown":
+		// "<id>[:dc]": stop the server of id (which closes its listener) and
+		// accept the same id again at once; with "dc" the old listener is then
+		// closed a second time, as `defer ln.Close()` after a server's Stop does
+		ids, mode, _ := strings.Cut(arg, ":")
+		id64, _ := strconv.ParseUint(ids, 10, 32)
+		id := uint32(id64)
+		im.kmu.Lock()
+		srv0, ln0 := im.own[id], im.ownLn[id]
+		im.kmu.Unlock()
+		if srv0 == nil {
+			return "", errors.New("reacceptown: no such server")
+		}
+		srv0.Stop()
+		ln, err := im.grpcb.Accept(id)
+		if err != nil {
+			return "", err
+		}
+		if mode == "dc" {
+			ln0.Close()
+		}
+		srv := NewPingPongServer(nil, id, im.sh)
+		im.kmu.Lock()
+		im.own[id], im.ownLn[id] = srv, ln
 		im.kmu.Unlock()
 		go k.Trap(func() { srv.Serve(ln) })
 		return "", nil
